@@ -2477,8 +2477,9 @@ func (r resolverQuery) loadNodeModules(importPath string, dirInfo *dirInfo, forb
 		r.debugLogs.addNote(fmt.Sprintf("Parsed package name %q and package subpath %q", esmPackageName, esmPackageSubpath))
 	}
 
-	// Check for self-references
-	if dirInfoPackageJSON != nil {
+	// Check for self-references. An import path that isn't a valid package name
+	// is never a self-reference, even if the enclosing package has no name.
+	if dirInfoPackageJSON != nil && esmOK {
 		if packageJSON := dirInfoPackageJSON.packageJSON; packageJSON.name == esmPackageName && packageJSON.exportsMap != nil {
 			absolute, ok, diffCase := r.esmResolveAlgorithm(finalizeImportsExportsNormal, esmPackageName, esmPackageSubpath, packageJSON,
 				dirInfoPackageJSON.absPath, r.fs.Join(dirInfoPackageJSON.absPath, esmPackageSubpath))
